@@ -257,8 +257,21 @@ func (f *STFS) Initialize(rootProposal string, rootPerm os.FileMode) (root strin
 
 			f.onHeader,
 		); err != nil {
+			// A tar file that already has content is not ours to start over on: it is damaged (i.e. cut short) or was
+			// written with different keys, and creating a new root would append to it and discard what has been indexed so far
+			inUse := false
+			if reader.DriveIsRegular {
+				if size, serr := reader.Drive.Seek(0, io.SeekEnd); serr == nil && size > 0 {
+					inUse = true
+				}
+			}
+
 			// Only close the reader if we got one
-			if err := f.readOps.GetBackend().CloseReader(); err != nil {
+			if cerr := f.readOps.GetBackend().CloseReader(); cerr != nil {
+				return "", cerr
+			}
+
+			if inUse {
 				return "", err
 			}
 
